@@ -111,7 +111,7 @@ Lemma defs_ren r ns : defs (map (ren_node r) ns) = map r (defs ns).
 Proof. unfold defs. induction ns as [|n ns IH]; simpl; auto. now rewrite map_app, IH. Qed.
 
 Lemma outs_in_defs n ns x : In n ns -> In x (n_outs n) -> In x (defs ns).
-Proof. intros Hn Hx. unfold defs. apply in_flat_map. eauto. Qed.
+Proof. intros Hn Hx. unfold defs. apply in_flat_map. timeout 20 eauto. Qed.
 
 Section OneFunction.
 Variable f : func.
@@ -124,12 +124,12 @@ Lemma step_ren ef ei n : wf_function f ->
   In n (f_body f) -> J ef ei -> orel J (step V sem ef n) (step V sem ei (ren_node r n)).
 Proof.
   intros Hwf Hinj Hn HJ. unfold step. rewrite n_uses_ren.
-  rewrite <- (lookups_ren r ef ei) by (intros x Hx; apply HJ; eapply wf_closed; eauto).
+  rewrite <- (lookups_ren r ef ei) by (intros x Hx; apply HJ; eapply wf_closed; timeout 20 eauto).
   destruct (lookups V ef (n_uses n)) as [vs|]; [|exact I]. cbn [n_op n_attrs n_outs ren_node].
   destruct (sem (n_op n) (n_attrs n) vs) as [o|]; [|exact I].
   rewrite map_length. destruct (Nat.eqb (length o) (length (n_outs n))); [|exact I].
   simpl. intros x Hx. apply upds_ren; [|now apply HJ].
-  intros y Hy. apply Hinj; auto. eapply outs_in_defs; eauto.
+  intros y Hy. apply Hinj; auto. eapply outs_in_defs; timeout 20 eauto.
 Qed.
 
 Lemma eval_ren : wf_function f ->
@@ -168,8 +168,8 @@ Lemma inline_frame e ef : eval V sem (map (ren_node r) (f_body f)) e = Some ef -
 Proof.
   intros Hev y Hy. rewrite <- defs_ren in Hy.
   destruct (e y) as [a|] eqn:Ey.
-  - eapply eval_mono; eauto.
-  - eapply eval_undefined; eauto.
+  - eapply eval_mono; timeout 20 eauto.
+  - eapply eval_undefined; timeout 20 eauto.
 Qed.
 
 End OneFunction.
@@ -244,7 +244,7 @@ Proof.
   assert (Ha : agree_except V internal_names (upds V em (map r (f_outs f)) ov) ei).
   { intros y Hy. destruct (in_dec Nat.eq_dec y (map r (f_outs f))) as [Hin|Hnin].
     - now apply upds_lookups.
-    - rewrite upds_other by exact Hnin. symmetry. eapply inline_frame; eauto.
+    - rewrite upds_other by exact Hnin. symmetry. eapply inline_frame; timeout 20 eauto.
       intro Hd. apply Hy. unfold internal_names. apply filter_In. split; auto.
       apply negb_true_iff. apply not_true_is_false. intro Hex. apply existsb_exists in Hex.
       destruct Hex as (z & Hz & Hyz). apply Nat.eqb_eq in Hyz. subst z. contradiction. }
@@ -371,7 +371,7 @@ Theorem dedup_sound_on : key_adequate_on P -> forall sites, Forall (fun ps => P 
 Proof.
   intros Hka sites Hs c Hc. destruct (inv_lower sites Hs) as [Hd Hcs].
   rewrite Forall_forall in Hd, Hcs. destruct (Hcs c Hc) as (Hp & Hin & Hk & _).
-  destruct (Hd _ Hin) as (s0 & Hp0 & Hk0 & Hs0 & _). rewrite Hs0. apply Hka; auto. congruence.
+  destruct (Hd _ Hin) as (s0 & Hp0 & Hk0 & Hs0 & _). rewrite Hs0. apply Hka; auto. timeout 20 congruence.
 Qed.
 
 (* two call nodes name the same definition only if their sites denote the same function *)
@@ -395,8 +395,8 @@ Proof.
   intros Hni Hno Hka sites Hs c Hc. destruct (inv_lower sites Hs) as [Hd Hcs].
   rewrite Forall_forall in Hd, Hcs. destruct (Hcs c Hc) as (Hp & Hin & Hk & Hn1 & Hn2).
   destruct (Hd _ Hin) as (s0 & Hp0 & Hk0 & Hs0 & Hn3 & Hn4). rewrite Hn1, Hn2, Hn3, Hn4. split.
-  - apply Hni. congruence.
-  - apply Hno. symmetry. apply Hka; auto. congruence.
+  - apply Hni. timeout 20 congruence.
+  - apply Hno. symmetry. apply Hka; auto. timeout 20 congruence.
 Qed.
 End Inv.
 
@@ -460,14 +460,14 @@ Proof.
   intros [Hnd Hle]. split.
   - rewrite map_app. cbn [map]. apply NoDup_snoc; auto.
     intro Hin. apply in_map_iff in Hin. destruct Hin as (d' & Hn & Hd').
-    specialize (Hle _ Hd'). rewrite Hn, new_def_fam in Hle. unfold new_def in Hle. simpl in Hle. lia.
+    specialize (Hle _ Hd'). rewrite Hn, new_def_fam in Hle. unfold new_def in Hle. simpl in Hle. timeout 20 lia.
   - intros d' Hd'. rewrite count_fam_app. apply in_app_or in Hd'. destruct Hd' as [Hd'|[<-|[]]].
-    + specialize (Hle _ Hd'). lia.
+    + specialize (Hle _ Hd'). timeout 20 lia.
     + rewrite new_def_fam.
       assert (H1 : count_fam (fam s) [new_def ds s] = 1).
       { unfold count_fam. cbn [filter]. rewrite new_def_fam.
         now rewrite (proj2 (fam_eqb_eq (fam s) (fam s)) eq_refl). }
-      rewrite H1. unfold new_def. simpl. lia.
+      rewrite H1. unfold new_def. simpl. timeout 20 lia.
 Qed.
 
 Lemma names_fold sites : forall st, names_inv (st_defs st) -> names_inv (st_defs (fold_left lower_site sites st)).
@@ -698,8 +698,8 @@ Proof.
   intros Hh Hf Hid Hfun Hno sites Hs c Hc.
   pose proof (real_key_adequate Hh Hf Hid Hfun) as Hka.
   split.
-  - eapply dedup_sound_on; eauto.
-  - eapply arity_matches_on; eauto. exact real_key_fixes_nin.
+  - eapply dedup_sound_on; timeout 20 eauto.
+  - eapply arity_matches_on; timeout 20 eauto. exact real_key_fixes_nin.
 Qed.
 
 (* ---- the two holes of the unchanged code: key components that change the denotation but not the key *)
@@ -776,7 +776,7 @@ Proof.
     + intros c1 c2 [-> | [-> | [-> | -> ]]] [-> | [-> | [-> | -> ]]]; simpl; intros; try discriminate; auto.
   - unfold clean, ex_live, static_ok, state_shown.
     repeat split; auto; simpl; intros; try discriminate; try contradiction.
-    destruct H as [H|[]]. injection H as _ <-. eauto.
+    destruct H as [H|[]]. injection H as _ <-. timeout 20 eauto.
 Qed.
 
 (* a, a again, the twin object, a with another shape, a with a kwarg, a again with the same kwarg:
